@@ -4,7 +4,7 @@
    undefined behaviour.  Only an UNCHECKED primitive can produce [UB]; the tables regenerated
    from the source (GenAccess) say which primitives the code uses today. *)
 From Coq Require Import List String Bool Arith Lia.
-From IprV Require Import GenTypes.
+From IprV Require Import GenTypes GenCheck.
 Import ListNotations.
 Local Open Scope string_scope.
 
@@ -99,16 +99,19 @@ Definition allowed_raw : list (string * string) :=
    ("Sequence::Iterator::operator*", "this.seq");       (* iterators are made by Sequence::begin/end/position from *this *)
    ("impl::General_substitution::operator[]", "CXXOperatorCallExpr");        (* map iterator, tested against end() *)
    ("impl::General_substitution::operator[]", "CXXOperatorCallExpr.second"); (* mapped value, inserted from a reference *)
-   ("impl::Overload::operator[]", "local:entry");       (* tested by the enclosing if *)
+   ("impl::Overload::operator[]", "local:*");           (* a local found by lookup, tested by the enclosing if; whatever it is called *)
    ("impl::decl_rep::decl_set", "this.decl_data.master_data");   (* decl_rep's only constructor stores a non-null master *)
    ("impl::decl_rep::definition", "this.decl_data.master_data");
    ("impl::decl_rep::master", "this.decl_data.master_data");
    ("impl::decl_rep::name", "this.decl_data.master_data");
    ("impl::decl_rep::name", "this.decl_data.master_data.overload"); (* set by Overload::push_back before the master is handed out *)
    ("impl::decl_rep::type", "this.decl_data.master_data");
-   ("impl::homogeneous_scope::operator[]", "local:__begin0");    (* range-for iterator *)
-   ("impl::obj_list::get", "local:b")].                  (* list iterator advanced by p < size() *)
+   ("impl::homogeneous_scope::operator[]", "local:*");    (* the iterator of the search loop / std::find_if, within [begin, end) *)
+   ("impl::obj_list::get", "local:*")].                  (* list iterator advanced by p < size() *)
 
+(* "local:*" allows any LOCAL variable of that function (the name a maintainer gives it does not matter) *)
+Definition what_matches (pattern what : string) : bool :=
+  streq pattern what || (streq pattern "local:*" && GenCheck.str_prefix "local:" what).
 Definition deref_allowed (fn what : string) : bool :=
-  existsb (fun r => streq (fst r) fn && streq (snd r) what) allowed_raw.
+  existsb (fun r => streq (fst r) fn && what_matches (snd r) what) allowed_raw.
 Definition site_ok (r : string * list string) : bool := forallb (deref_allowed (fst r)) (snd r).
